@@ -75,80 +75,150 @@ def run(prog: Program, L: Ledger) -> None:
             L.violation(f["rule"], f["construct"], f["where"], f["detail"], f["witness"], f.get("stmt", ""))
     L.extra["abstract_trials"] = nt
 
+    from ..normalize import flat
+    from ..rowtrack import RowTracker
+
     dm = prog.cls("DisplacementMove")
-    att = dm.methods.get("attempt_displacement")
-    call = dm.methods.get("__call__")
+    att0 = dm.methods.get("attempt_displacement")
+    call0 = dm.methods.get("__call__")
     setl = dm.methods.get("set_labels")
-    if not (att and call and setl):
+    if not (att0 and call0 and setl):
         raise AnalysisError("DisplacementMove anchors missing")
-    rel = att.module.relpath
-    inl = Inliner(att.node)
+    rel = att0.module.relpath
+    att = flat(prog, att0, dm)
+    call = flat(prog, call0, dm)
 
     # ------------------------------------------------------------------ D1
-    sp_calls = [c for c in calls_in(att.node) if isinstance(c.func, ast.Attribute) and c.func.attr == "set_positions"]
-    if len(sp_calls) != 1:
-        raise AnalysisError(f"attempt_displacement: expected one set_positions call, found {len(sp_calls)}")
-    spc = sp_calls[0]
-    arg = spc.args[0]
-    atoms_alias = {"atoms", "context.atoms"}
-    live = {f"{a}.positions" for a in atoms_alias} | {f"{a}.get_positions()" for a in atoms_alias}
-    zname = None
-    okshape = False
-    if isinstance(arg, ast.BinOp) and isinstance(arg.op, ast.Add):
-        l, r = arg.left, arg.right
-        for a, b in ((l, r), (r, l)):
-            if norm(a) in live and isinstance(b, ast.Name):
-                zname = b.id
-    L.check(zname is not None, "D1", "attempt_displacement:sum", f"{rel}:{spc.lineno}", f"set_positions receives `{norm(arg)[:90]}`, not (current positions) + (translation array)",
+    # abstract run of one attempt: the array handed to set_positions, followed back to its allocation and stores
+    abody = att.body()
+    aloops = [s_ for s_ in abody if isinstance(s_, (ast.For, ast.While))]
+    if len(aloops) != 1:
+        raise AnalysisError(f"attempt_displacement: expected one retry loop, found {len(aloops)}")
+    alp = aloops[0]
+    T = RowTracker(None, where="attempt_displacement")
+    for s_ in abody[: abody.index(alp)]:
+        if isinstance(s_, (ast.Assign, ast.AnnAssign)):
+            T.stmt(s_)
+        elif not (isinstance(s_, ast.Expr) and isinstance(s_.value, ast.Constant)):
+            raise AnalysisError(f"attempt_displacement: statement `{norm(s_)[:60]}` before the retry loop is outside the recognised fragment")
+    outside = set(T.objs)
+    spc = None
+    for s_ in alp.body:
+        cs = [c for c in (calls_in(s_) if not isinstance(s_, (ast.If, ast.For, ast.While)) else calls_in(ast.Expr(value=s_.test)) if isinstance(s_, ast.If) else [])
+              if isinstance(c.func, ast.Attribute) and c.func.attr == "set_positions"]
+        if cs:
+            spc = cs[0]
+            break
+        if isinstance(s_, (ast.Assign, ast.AnnAssign, ast.AugAssign)):
+            T.stmt(s_)
+        elif isinstance(s_, ast.Expr) and isinstance(s_.value, ast.Constant):
+            continue
+        else:
+            raise AnalysisError(f"attempt_displacement: statement `{norm(s_)[:60]}` before the position write is outside the recognised fragment")
+    n_sp = sum(1 for c in calls_in(att.node) if isinstance(c.func, ast.Attribute) and c.func.attr == "set_positions")
+    if spc is None or n_sp != 1:
+        raise AnalysisError(f"attempt_displacement: expected one set_positions call at the top level of the retry loop, found {n_sp}")
+    kws = {k.arg: k.value for k in spc.keywords}
+    arg = T.subst(spc.args[0] if spc.args else kws.get("newpositions"))
+    recv = norm(T.subst(spc.func.value))
+    live = {"context.atoms.positions", "context.atoms.get_positions()"}
+    zobj = zname = None
+    if isinstance(arg, ast.BinOp) and isinstance(arg.op, ast.Add) and recv == "context.atoms":
+        for a_, b_ in ((arg.left, arg.right), (arg.right, arg.left)):
+            if norm(a_) in live and isinstance(b_, ast.Name) and b_.id in T.objs:
+                zname, zobj = b_.id, T.objs[b_.id]
+    L.check(zobj is not None, "D1", "attempt_displacement:sum", f"{rel}:{spc.lineno}", f"set_positions receives `{norm(arg)[:90]}`, not (current positions) + (translation array)",
             "atoms outside the selected group are placed at positions other than their current ones", norm(arg)[:120])
-    if zname is not None:
-        defs = local_defs(att.node).get(zname, [])
-        plain = [(st, v) for st, v in defs if isinstance(st, (ast.Assign, ast.AnnAssign))]
-        zero = False
-        if len(defs) == 1 and len(plain) == 1:
-            v = plain[0][1]
-            if isinstance(v, ast.Call):
-                fn = norm(v.func)
-                a0 = norm(v.args[0]).replace(" ", "") if v.args else ""
-                shape_ok = a0 in ("(len(atoms),3)", "(len(context.atoms),3)")
-                if fn == "np.full" and shape_ok and len(v.args) > 1 and norm(v.args[1]) in ("0.0", "0"):
-                    zero = True
-                if fn == "np.zeros" and shape_ok:
-                    zero = True
-                if fn == "np.zeros_like" and norm(v.args[0]) in live:
-                    zero = True
-        L.check(zero, "D1", "attempt_displacement:zeros", f"{rel}:{defs[0][0].lineno if defs else att.node.lineno}",
-                f"translation array `{zname}` is not a fresh zero array of shape (len(atoms), 3) (defined {len(defs)} time(s): `{norm(defs[0][0])[:80] if defs else ''}`)",
-                "unselected atoms receive a non-zero translation (stale values from a previous attempt or a non-zero fill)", zname)
-        stores = []
-        for n in walk_no_nested(att.node):
-            tg = []
-            if isinstance(n, ast.Assign):
-                tg = n.targets
-            elif isinstance(n, ast.AugAssign):
-                tg = [n.target]
-            for t in tg:
-                if isinstance(t, ast.Subscript) and isinstance(t.value, ast.Name) and t.value.id == zname:
-                    stores.append((n, t))
-                elif isinstance(n, ast.AugAssign) and isinstance(t, ast.Name) and t.id == zname:
-                    stores.append((n, t))
-        ok_store = len(stores) == 1 and isinstance(stores[0][0], ast.Assign) and norm(stores[0][1].slice) == "context._moving_indices" and norm(stores[0][0].value) == "self.operation.calculate(context)"
-        L.check(ok_store, "D1", "attempt_displacement:store", f"{rel}:{stores[0][0].lineno if stores else att.node.lineno}",
-                f"the translation array has {len(stores)} store(s): " + "; ".join(norm(s[0])[:70] for s in stores) + " — expected the single `Z[context._moving_indices] = self.operation.calculate(context)`",
+    if zobj is not None:
+        shp = norm(zobj.shape).replace(" ", "") if zobj.shape is not None else ""
+        zero = zobj.kind == "array" and zobj.fill in ("0", "0.0") and (shp == "(len(context.atoms),3)" or (zobj.like is not None and norm(zobj.like) in live))
+        fresh = not any(T.objs.get(n) is zobj for n in outside)
+        L.check(zero and fresh, "D1", "attempt_displacement:zeros", f"{rel}:{getattr(zobj.node, 'lineno', att0.node.lineno)}",
+                f"translation array `{norm(zobj.node)[:80]}` is not a zero array of shape (len(atoms), 3) allocated afresh for every attempt" + ("" if fresh else " (allocated once, before the retry loop)"),
+                "unselected atoms receive a non-zero translation (stale values from a previous attempt or a non-zero fill)", "zeros")
+        st_ = zobj.stores
+        ok_store = len(st_) == 1 and st_[0][0] == ("index", "context._moving_indices") and st_[0][1] == "self.operation.calculate(context)"
+        L.check(ok_store, "D1", "attempt_displacement:store", f"{rel}:{st_[0][2] if st_ else att0.node.lineno}",
+                f"the translation array has {len(st_)} store(s): " + "; ".join(f"[{x[0][1] if len(x[0]) > 1 else x[0]}] <- {x[1][:50]}" for x in st_) + " — expected the single `Z[context._moving_indices] = self.operation.calculate(context)`",
                 "atoms not sharing the selected label are displaced, or group members get different displacements", "store")
-        # the store precedes the write in the same iteration
-        if stores:
-            L.check(stores[0][0].lineno < spc.lineno, "D1", "attempt_displacement:order", f"{rel}:{spc.lineno}", "translation is stored after positions are written", "", "order")
 
-    # ------------------------------------------------------------------ D2
-    mi = [n for n in walk_no_nested(call.node) if isinstance(n, ast.Assign) and any("_moving_indices" in norm(t) for t in n.targets)]
-    okmi = len(mi) == 1 and norm(mi[0].value) in ("np.where(self.labels == self.to_displace_labels)", "np.nonzero(self.labels == self.to_displace_labels)")
-    L.check(okmi, "D2", "DisplacementMove.__call__:moving-indices", f"{rel}:{mi[0].lineno if mi else call.node.lineno}",
-            f"moving indices are `{norm(mi[0].value)[:80] if mi else None}`, not where(labels == chosen label)", "atoms with other labels move / group members stay behind", "moving_indices")
-    ch = [n for n in walk_no_nested(call.node) if isinstance(n, ast.Assign) and any(norm(t) == "self.to_displace_labels" for t in n.targets)]
-    okch = len(ch) == 1 and norm(ch[0].value) in ("context.rng.choice(self.unique_labels)",)
-    L.check(okch, "D2", "DisplacementMove.__call__:choice", f"{rel}:{ch[0].lineno if ch else call.node.lineno}",
-            f"target label chosen by `{norm(ch[0].value)[:80] if ch else None}`, not a draw from unique_labels", "negative (do-not-touch) labels can be chosen", "choice")
+    # ------------------------------------------------------------------ D2 / D3: exhaustive evaluation of __call__'s control skeleton
+    from ..minieval import Raises, run_stmts
+
+    cinl = Inliner(call.node)
+    where_c = f"{rel}:{call0.node.lineno}"
+    outcomes = {}
+    mi_values = set()
+    for preset in (False, True):
+        for n_el in (0, 2):
+            for att_ok in (True, False):
+                events: list[tuple] = []
+                env = {"self.to_displace_labels": 7 if preset else None, "len(self.unique_labels)": n_el, "self.unique_labels.size": n_el, "self.unique_labels.shape[0]": n_el,
+                       "self.attempt_displacement(context)": att_ok, "context.rng.choice(self.unique_labels)": 5,
+                       "self.register_failure()": False, "self.register_success()": True, "__trace__": []}
+
+                def flush(_env=env, _events=events):
+                    for t in _env["__trace__"]:
+                        _events.append(("call", t))
+                    _env["__trace__"].clear()
+
+                def on_call(ftxt, c, _events=events, _flush=flush):
+                    _flush()
+                    _events.append(("call", norm(c)))
+
+                def on_store(t, value, v, _env=env, _events=events, _flush=flush):
+                    _flush()
+                    tt = norm(t.elts[0]) if isinstance(t, ast.Tuple) and len(t.elts) == 1 else norm(t)
+                    _events.append(("store", tt, norm(cinl.inline(value)), v, _env.get("self.to_displace_labels")))
+
+                try:
+                    run_stmts(call.body(), env, on_call, on_store=on_store)
+                except Raises as exc:
+                    events.append(("raises", exc.what))
+                except PredUnsupported as exc:
+                    raise AnalysisError(f"DisplacementMove.__call__: {exc}") from exc
+                flush()
+                outcomes[(preset, n_el, att_ok)] = (events, env.get("<return>"))
+
+    def calls(evs, txt):
+        return [i for i, e_ in enumerate(evs) if e_[0] == "call" and e_[1] == txt]
+
+    def stores(evs, tgt):
+        return [(i, e_) for i, e_ in enumerate(evs) if e_[0] == "store" and e_[1] == tgt]
+
+    ok_mi = ok_ch = ok_d3 = ok_res = True
+    why_mi = why_ch = why_d3 = why_res = ""
+    for (preset, n_el, att_ok), (evs, ret) in outcomes.items():
+        case = f"label {'preset' if preset else 'not set'}, {n_el} eligible labels, attempt {'succeeds' if att_ok else 'fails'}"
+        ch = calls(evs, "context.rng.choice(self.unique_labels)")
+        mi = stores(evs, "context._moving_indices")
+        tl = stores(evs, "self.to_displace_labels")
+        at = calls(evs, "self.attempt_displacement(context)")
+        if not preset and n_el == 0:
+            # D3: nothing eligible: failure, before any draw / write / attempt
+            if ch or mi or tl or at or ret is not False or not calls(evs, "self.register_failure()") or calls(evs, "self.register_success()"):
+                ok_d3, why_d3 = False, f"{case}: events {[e_[:2] for e_ in evs]}, returns {ret}"
+            continue
+        want_label = 7 if preset else 5
+        if (preset and (ch or tl)) or (not preset and (len(ch) != 1 or len(tl) != 1 or tl[0][1][3] != 5)):
+            ok_ch, why_ch = False, f"{case}: draws {len(ch)}, label stores {[e_[2] for _i, e_ in tl]}"
+        if len(mi) != 1 or mi[0][1][4] != want_label or (at and mi[0][0] > at[0]):
+            ok_mi, why_mi = False, f"{case}: moving-index stores {[e_[2] for _i, e_ in mi]} with chosen label {mi[0][1][4] if mi else None}"
+        for _i, e_ in mi:
+            mi_values.add(e_[2])
+        good = len(at) == 1 and ret is att_ok and len(calls(evs, "self.register_success()")) == (1 if att_ok else 0) and len(calls(evs, "self.register_failure()")) == (0 if att_ok else 1)
+        if not good:
+            ok_res, why_res = False, f"{case}: events {[e_[:2] for e_ in evs]}, returns {ret}"
+    okmi_txt = all(v in ("np.where(self.labels == self.to_displace_labels)", "np.nonzero(self.labels == self.to_displace_labels)", "np.where(self.to_displace_labels == self.labels)",
+                         "np.flatnonzero(self.labels == self.to_displace_labels)") for v in mi_values) and bool(mi_values)
+    L.check(ok_mi and okmi_txt, "D2", "DisplacementMove.__call__:moving-indices", where_c,
+            f"moving indices are `{sorted(mi_values)}` {why_mi}: not where(labels == chosen label), set once before the attempt", "atoms with other labels move / group members stay behind", "moving_indices")
+    L.check(ok_ch, "D2", "DisplacementMove.__call__:choice", where_c,
+            f"target label is not (the preset label, else one draw from unique_labels): {why_ch}", "negative (do-not-touch) labels can be chosen", "choice")
+    any_choice = [c for c in calls_in(call.node) if isinstance(c.func, ast.Attribute) and c.func.attr in ("choice", "integers", "permutation", "shuffle")]
+    L.check(all(norm(c) == "context.rng.choice(self.unique_labels)" for c in any_choice), "D2", "DisplacementMove.__call__:choice-source", where_c,
+            f"label drawn by `{[norm(c)[:60] for c in any_choice if norm(c) != 'context.rng.choice(self.unique_labels)']}`, not from unique_labels", "negative (do-not-touch) labels can be chosen", "choice-source")
+    L.check(ok_res, "D2", "DisplacementMove.__call__:outcome", where_c, f"the attempt's outcome is not reported through register_success/register_failure: {why_res}", "", "outcome")
     # unique_labels definition
     ul = [n for n in walk_no_nested(setl.node) if isinstance(n, (ast.Assign, ast.AnnAssign)) and norm(n.targets[0] if isinstance(n, ast.Assign) else n.target) == "self.unique_labels"]
     if len(ul) != 1:
@@ -185,97 +255,116 @@ def run(prog: Program, L: Ledger) -> None:
     L.floor("writers of labels/unique_labels", nw, 2)
 
     # ------------------------------------------------------------------ D3
-    cfg = build_cfg(call.node)
-    tests = [n for n in cfg.nodes if n.kind == "test" and "unique_labels" in norm(n.ast)]
-    if len(tests) != 1:
-        raise AnalysisError("DisplacementMove.__call__: empty-selection test not found")
-    tnode = tests[0]
-    bad = None
-    try:
-        for k in range(0, 4):
-            got = bool(ev(tnode.ast, {"len(self.unique_labels)": k}))
-            if got != (k == 0):
-                bad = k
-    except PredUnsupported:
-        # allow `not len(...)` / `len(...) == 0` forms only
-        bad = None if norm(tnode.ast) in ("len(self.unique_labels) == 0", "not len(self.unique_labels)") else -1
-    L.check(bad is None, "D3", "DisplacementMove.__call__:empty-test", f"{rel}:{tnode.lineno}", f"`{norm(tnode.ast)}` does not test for an empty set of eligible labels", "choice() over an empty array raises", norm(tnode.ast))
-    succ = [(v, lab) for v, lab in cfg.succ(tnode) if lab == "true"]
-    okd3 = bool(succ) and succ[0][0].kind == "stmt" and isinstance(succ[0][0].ast, ast.Return) and norm(succ[0][0].ast.value) == "self.register_failure()"
-    L.check(okd3, "D3", "DisplacementMove.__call__:failure-return", f"{rel}:{tnode.lineno}", "the no-eligible-particle branch does not immediately `return self.register_failure()`", "the move reports success or touches the atoms although nothing is eligible", "return")
+    L.check(ok_d3, "D3", "DisplacementMove.__call__:failure-return", where_c, f"with no eligible label the move does not return register_failure() before any draw, write or attempt: {why_d3}",
+            "the move reports success, draws from an empty set (raises) or touches the atoms although nothing is eligible", "return")
     rf = dm.methods.get("register_failure")
     L.check(rf is not None and any(isinstance(s, ast.Return) and norm(s.value) == "False" for s in rf.body()), "D3", "DisplacementMove.register_failure", rf.where if rf else dm.where, "register_failure does not return False", "", "False")
 
     # ------------------------------------------------------------------ D4
     cd = prog.cls("CompositeDisplacementMove")
-    cc = cd.methods.get("__call__")
-    if cc is None:
+    cc0 = cd.methods.get("__call__")
+    if cc0 is None:
         raise AnalysisError("CompositeDisplacementMove.__call__ missing")
+    cc = flat(prog, cc0, cd)
     body = cc.body()
     first = body[0] if body else None
     reset_ok = isinstance(first, ast.Expr) and isinstance(first.value, ast.Call) and norm(first.value.func) == "self.reset"
     rs = cd.methods.get("reset")
     reset_ok = reset_ok and rs is not None and any(isinstance(s, ast.Assign) and norm(s.targets[0]) == "self.displaced_labels" and norm(s.value) == "[]" for s in rs.body())
-    L.check(reset_ok, "D4", "CompositeDisplacementMove.__call__:reset", cc.where, "the displaced-labels list is not emptied at the start of the call", "labels displaced in the previous call stay excluded", "reset")
+    if not reset_ok and first is not None and isinstance(first, ast.Assign) and norm(first.targets[0]) == "self.displaced_labels" and norm(first.value) in ("[]", "list()"):
+        reset_ok = True
+    L.check(reset_ok, "D4", "CompositeDisplacementMove.__call__:reset", cc0.where, "the displaced-labels list is not emptied at the start of the call", "labels displaced in the previous call stay excluded", "reset")
     loops = [s for s in body if isinstance(s, ast.For) and norm(s.iter) == "self.moves"]
     if len(loops) != 1:
         raise AnalysisError("CompositeDisplacementMove.__call__: loop over self.moves not found")
     lp = loops[0]
     mv = norm(lp.target)
     linl = Inliner(cc.node)
-    cand = [n for n in walk_no_nested(lp) if isinstance(n, ast.Assign) and isinstance(n.value, ast.Call) and norm(n.value.func) == "np.setdiff1d"]
+    cand = [n for n in walk_no_nested(lp) if isinstance(n, ast.Assign) and isinstance(n.value, ast.Call) and norm(n.value.func) in ("np.setdiff1d", "numpy.setdiff1d")]
     okc = False
-    if len(cand) == 1:
+    aliases: set[str] = set()
+    if len(cand) == 1 and isinstance(cand[0].targets[0], ast.Name):
         c = cand[0].value
-        a0, a1 = norm(c.args[0]), norm(linl.inline(c.args[1])) if isinstance(c.args[1], ast.Name) else norm(c.args[1])
+        aliases = {cand[0].targets[0].id}
+        grew = True
+        while grew:
+            grew = False
+            for n in walk_no_nested(lp):
+                if isinstance(n, ast.Assign) and isinstance(n.value, ast.Name) and n.value.id in aliases and isinstance(n.targets[0], ast.Name) and n.targets[0].id not in aliases:
+                    aliases.add(n.targets[0].id)
+                    grew = True
+        a0 = norm(c.args[0])
+        src = linl.inline(c.args[1]) if len(c.args) > 1 else None
         # second argument: the non-None entries of self.displaced_labels
-        second = c.args[1]
-        src = None
-        for n in walk_no_nested(lp):
-            if isinstance(n, ast.Assign) and isinstance(second, ast.Name) and norm(n.targets[0]) == second.id:
-                src = n.value
-        if src is None:
-            src = second
-        ok_second = isinstance(src, ast.ListComp) and norm(src.generators[0].iter) == "self.displaced_labels" and len(src.generators[0].ifs) == 1 and norm(src.generators[0].ifs[0]) == f"{norm(src.generators[0].target)} is not None" and norm(src.elt) == norm(src.generators[0].target)
+        ok_second = isinstance(src, ast.ListComp) and len(src.generators) == 1 and norm(src.generators[0].iter) == "self.displaced_labels" and len(src.generators[0].ifs) == 1 \
+            and norm(src.generators[0].ifs[0]) == f"{norm(src.generators[0].target)} is not None" and norm(src.elt) == norm(src.generators[0].target)
         okc = a0 == f"{mv}.unique_labels" and ok_second
     L.check(okc, "D4", "CompositeDisplacementMove.__call__:candidates", f"{rel}:{cand[0].lineno if cand else lp.lineno}",
             "candidates are not setdiff(child.unique_labels, labels already displaced in this call)", "the same particle is displaced twice in one composite call", norm(cand[0].value)[:120] if cand else "")
-    ch = [n for n in walk_no_nested(lp) if isinstance(n, ast.Assign) and norm(n.targets[0]) == f"{mv}.to_displace_labels"]
-    L.check(len(ch) == 1 and cand and norm(ch[0].value) == f"context.rng.choice({norm(cand[0].targets[0])})", "D4", "CompositeDisplacementMove.__call__:choice", f"{rel}:{ch[0].lineno if ch else lp.lineno}",
-            "the child's target is not drawn from the filtered candidates", "already displaced particle chosen again", norm(ch[0].value) if ch else "")
-    # exactly one registration per child on every path
-    ccfg = build_cfg(cc.node)
-    it = [n for n in ccfg.nodes if n.kind == "iter" and n.ast is lp]
-    if len(it) != 1:
-        raise AnalysisError("composite loop node not in CFG")
-    itn = it[0]
-    bad_seg = None
-    npth = 0
-    for path in ccfg.paths(max_back=2, include_exc=False):
-        npth += 1
-        segs = [[]]
-        for node, lab in path:
-            if node is itn:
-                segs.append([])
-                continue
-            if node.ast is None:
-                continue
-            root = node.ast if node.kind != "iter" else node.ast.iter
-            for c in (x for x in walk_no_nested(root) if isinstance(x, ast.Call)):
-                if norm(c.func) in ("self.register_success", "self.register_failure"):
-                    segs[-1].append(norm(c.func))
-        for seg in segs[1:-1]:
-            if len(seg) != 1:
-                bad_seg = seg
-    L.check(bad_seg is None, "D4", "CompositeDisplacementMove.__call__:one-registration", cc.where,
-            f"a child iteration registers {len(bad_seg) if bad_seg is not None else 1} outcome(s) {bad_seg}", "the reported number of moved particles is wrong / a displaced label is not recorded and can be chosen again", "registration")
+    # one child iteration, exhaustively: number of candidates × outcome of the child
+    it_out = {}
+    lbody = lp.body
+    for k in (0, 2):
+        for moved in (True, False):
+            events = []
+            env = {f"{mv}(context)": moved, "__trace__": []}
+            for al in aliases:
+                env[f"len({al})"] = k
+                env[f"{al}.size"] = k
+                env[f"{al}.shape[0]"] = k
+                env[f"context.rng.choice({al})"] = 5
+
+            def flush(_env=env, _events=events):
+                for t in _env["__trace__"]:
+                    _events.append(("call", t))
+                _env["__trace__"].clear()
+
+            def on_call(ftxt, c, _events=events, _flush=flush):
+                _flush()
+                _events.append(("call", norm(c)))
+
+            def on_store(t, value, v, _events=events, _flush=flush):
+                _flush()
+                _events.append(("store", norm(t), v))
+
+            try:
+                r = run_stmts(lbody, env, on_call, on_store=on_store)
+            except Raises as exc:
+                events.append(("raises", exc.what))
+                r = "raise"
+            except PredUnsupported as exc:
+                raise AnalysisError(f"CompositeDisplacementMove.__call__ loop body: {exc}") from exc
+            flush()
+            it_out[(k, moved)] = (events, r)
+    ok_choice = ok_reg = True
+    why_choice = why_reg = ""
+    for (k, moved), (evs, r) in it_out.items():
+        case = f"{k} candidates, child {'moves' if moved else 'fails'}"
+        regs_ = [e_[1] for e_ in evs if e_[0] == "call" and e_[1].startswith(("self.register_success", "self.register_failure"))]
+        draws = [e_ for e_ in evs if e_[0] == "call" and ".choice(" in e_[1]]
+        tl = [e_ for e_ in evs if e_[0] == "store" and e_[1] == f"{mv}.to_displace_labels"]
+        childcalls = [i for i, e_ in enumerate(evs) if e_[0] == "call" and e_[1] == f"{mv}(context)"]
+        if k == 0:
+            if regs_ != ["self.register_failure()"] or draws or tl or childcalls or r in ("return", "break", "raise"):
+                ok_reg, why_reg = False, f"{case}: {[e_[:2] for e_ in evs]}"
+            continue
+        if len(draws) != 1 or len(tl) != 1 or tl[0][2] != 5 or len(childcalls) != 1 or evs.index(tl[0]) > childcalls[0]:
+            ok_choice, why_choice = False, f"{case}: draws {[d[1][:50] for d in draws]}, label stores {[(t_[1], t_[2]) for t_ in tl]}, child calls {len(childcalls)}"
+        want = [f"self.register_success({mv})"] if moved else ["self.register_failure()"]
+        if regs_ != want or r in ("return", "break", "raise"):
+            ok_reg, why_reg = False, f"{case}: registrations {regs_}, expected {want}"
+    other_draws = [c for c in calls_in(lp) if isinstance(c.func, ast.Attribute) and c.func.attr in ("choice", "integers", "permutation") and not (len(c.args) >= 1 and isinstance(c.args[0], ast.Name) and c.args[0].id in aliases)]
+    L.check(ok_choice and not other_draws, "D4", "CompositeDisplacementMove.__call__:choice", f"{rel}:{lp.lineno}",
+            f"the child's target is not one draw from the filtered candidates, stored before the child is called: {why_choice} {[norm(c)[:50] for c in other_draws]}", "already displaced particle chosen again", "choice")
+    L.check(ok_reg, "D4", "CompositeDisplacementMove.__call__:one-registration", cc0.where,
+            f"a child iteration does not register exactly its own outcome: {why_reg}", "the reported number of moved particles is wrong / a displaced label is not recorded and can be chosen again", "registration")
     regs = cd.methods.get("register_success")
     regf = cd.methods.get("register_failure")
     oks = regs is not None and any(isinstance(c, ast.Call) and norm(c.func) == "self.displaced_labels.append" and norm(c.args[0]) == f"{regs.params()[1]}.displaced_labels" for c in calls_in(regs.node))
     okf = regf is not None and any(isinstance(c, ast.Call) and norm(c.func) == "self.displaced_labels.append" and norm(c.args[0]) == "None" for c in calls_in(regf.node))
     L.check(oks and okf, "D4", "CompositeDisplacementMove.register_*", cd.where, "register_success/failure do not append the displaced label / None", "", "append")
     ret = [s for s in body if isinstance(s, ast.Return)]
-    L.check(len(ret) == 1 and norm(ret[0].value) == "self.number_of_moved_particles > 0", "D4", "CompositeDisplacementMove.__call__:result", cc.where, "result is not `number_of_moved_particles > 0`", "", norm(ret[0].value) if ret else "")
+    L.check(len(ret) == 1 and norm(linl.inline(ret[0].value)) in ("self.number_of_moved_particles > 0", "self.number_of_moved_particles >= 1", "bool(self.number_of_moved_particles)", "self.number_of_moved_particles != 0"), "D4", "CompositeDisplacementMove.__call__:result", cc0.where, "result is not `number_of_moved_particles > 0`", "", norm(ret[0].value) if ret else "")
     nm = cd.methods.get("number_of_moved_particles")
     oknm = False
     if nm is not None:
@@ -292,4 +381,4 @@ def run(prog: Program, L: Ledger) -> None:
                     and (norm(g.elt) in ("True", "1") or norm(r[0].value.func) == "len")
                 )
     L.check(oknm, "D4", "CompositeDisplacementMove.number_of_moved_particles", nm.where if nm else cd.where, "moved-particle count is not the number of non-None entries", "", "count")
-    L.extra["composite_paths"] = npth
+
